@@ -15,6 +15,7 @@ func init() {
 			ruleAllocBounds(p, r, func(fn *ssa.Function) bool { return sel(fn) }, "blockchain-codecs")
 			ruleSignedConv(p, r, func(fn *ssa.Function) bool { return sel(fn) })
 			r.need("signed-conv", 2)
+			ruleCursorAdvance(p, r, func(fn *ssa.Function) bool { return sel(fn) })
 		},
 	})
 }
